@@ -152,6 +152,8 @@ def run(rep, tier):
     rep.rule("R3", "3.10 co_lines(): '=Bb' (unsigned length, signed delta) pairs; -128 means no line and the delta is not applied; empty ranges are skipped; start = previous end")
     rep.rule("R5", "findlinestarts over co_lines(): yields (start, line) when the line changes; None lines skipped for 3.10-3.12, yielded for 3.13")
     rep.rule("R6", "every opcode table binds a findlinestarts of the kind its version's line table needs")
+    rep.rule("R8", "offset2line(q, linestarts) returns the line of the greatest start offset <= q, and 0 before the first entry: exhaustive over the order types of q "
+                   "against tables of 0..9 entries (the search only compares offsets)")
     rep.rule("R7", "with the dup_lines value Bytecode passes by default the yield guard is the reference guard (line != lastline)")
     T = tables()
     F = T.F
@@ -370,5 +372,47 @@ def run(rep, tier):
     n4 = location_rules(rep, T, rule="R4", which=("decode_linetable_entry",))
     rep.floor("3.11+ location-entry configurations", n4, 60)
     colines_ranges_rule(rep, T, "R4")
-    rep.assumptions = ["dis.findlinestarts of CPython 2.7, 3.6-3.13 (reference/dis_semantics.json 'line table')", "offset2line (binary search) is not decided: no sound rule formulated",
+    # ---------------------------------------------------------------- R8 offset2line: a comparison-based search, decided for every ordering of the query
+    # relative to tables of 0..9 entries (the table offsets are concrete and distinct, the query is a ranged symbol that is split at every comparison, the
+    # lines are symbols: the function touches offsets only through comparisons, so these buckets are all the order types there are for those lengths)
+    from ..sve import NeedSplit
+    o2l = F.modules["xdis.bytecode"].ns.get("offset2line")
+    if not isinstance(o2l, FuncRef):
+        raise AnalysisError("anchor vanished: xdis.bytecode.offset2line")
+    rep.analysed(o2l.qualname)
+    q = Sym("q", "int")
+    bad8, nb8 = [], 0
+    for n_ in range(0, 10):
+        offs = [10 * i_ + 5 for i_ in range(n_)]
+        table = [(offs[i_], Sym("L%d" % i_, "int")) for i_ in range(n_)]
+        todo8 = [{"q": (-3, 10 * n_ + 12)}]
+        while todo8:
+            rg = todo8.pop()
+            sp8 = Spec(F)
+            sp8.ranges = dict(rg)
+            try:
+                out8 = sp8.run(o2l, [q, list(table)])
+            except NeedSplit as ns:
+                lo, hi = rg[ns.atom]
+                todo8 += [{"q": (ns.point + 1, hi)}, {"q": (lo, ns.point)}]
+                continue
+            except Exception as ex:
+                bad8.append("n=%d q in %s: not evaluable (%s)" % (n_, rg["q"], ex))
+                continue
+            nb8 += 1
+            rets8 = [l.value for g_, l in leaves(out8) if isinstance(l, Ret)]
+            lo, hi = rg["q"]
+            # the bucket must lie inside one gap of the table for the answer to be a single term
+            ks = {max([i_ for i_ in range(n_) if offs[i_] <= qq], default=-1) for qq in (lo, hi)}
+            if len(ks) != 1:
+                bad8.append("n=%d q in %d..%d: the search does not distinguish offsets on both sides of a table entry" % (n_, lo, hi))
+                continue
+            k_ = ks.pop()
+            want8 = 0 if k_ < 0 else table[k_][1]
+            if len(rets8) != 1 or not (rets8[0] is want8 or (want8 == 0 and rets8[0] == 0 and not is_symbolic(rets8[0]))):
+                bad8.append("n=%d q in %d..%d: returns %s, the line of the greatest start <= q is %s" % (n_, lo, hi, [show(r_) for r_ in rets8][:2], show(want8)))
+    rep.ob("R8", o2l.qualname, "greatest-start-not-above-offset", not bad8, expected="the line of the greatest start offset <= the query (0 before the first entry), for every ordering of the query and tables of 0..9 entries",
+           derived=bad8[:3] or "%d buckets agree" % nb8, msg="offset2line: %s" % "; ".join(bad8[:2]))
+    rep.floor("offset2line buckets", nb8, 60)
+    rep.assumptions = ["dis.findlinestarts of CPython 2.7, 3.6-3.13 (reference/dis_semantics.json 'line table')", "offset2line is decided for tables of up to 9 entries (all order types), not by induction on the length",
                        "the 3.11+ location table walk is decided under C17"]
